@@ -913,6 +913,8 @@ SCHEMA_SHAPES = {
     "create_index": dict(fn=_sx_create_index, kind="ddl"),
     "drop_table": dict(fn=_sx_drop_table, kind="ddl"),
     "create_all": dict(fn=None, kind="meta"),
+    "table_create": dict(fn=None, kind="meta"),
+    "table_drop": dict(fn=None, kind="meta"),
 }
 
 ABSENT = "<absent>"
